@@ -8,7 +8,7 @@
     lr.Parser.Parse / ParseAndBuildAST, for every grammar, table and input. *)
 From Coq Require Import List ZArith.
 From Algo.Grammar Require Import CFG.
-From Algo.C11 Require Import Model ModelPrec ModelSLR Spec Proofs ProofsTerm ProofsOracle ProofsPrec ProofsPrecExpr ProofsLR0.
+From Algo.C11 Require Import Model ModelPrec ModelSLR Spec Proofs ProofsTerm ProofsOracle ProofsPrec ProofsPrecExpr ProofsLR0 ProofsSLR.
 Import ListNotations.
 
 (** Soundness of the driver over any certified table: if [Parse] accepts [w] then [w] is a
@@ -163,6 +163,39 @@ Proof.
   rewrite Forall_forall in HF. destruct (HF I HI) as [l Hl]. exists l. exact Hl.
 Qed.
 
+(** The modelled SLR(1) construction always produces certified tables: for every grammar whose
+    body terminals are declared, every fuel and every declaration of precedence levels, a table
+    returned by [build_slr] (LR(0) canonical collection, FOLLOW, ResolveConflicts) passes
+    [table_ok] — with, as label of a state, the longest part before the dot among its items.
+    Together with [C11_driver_sound]: the parser over any table the modelled SLR construction
+    returns accepts only sentences and emits a rightmost derivation in reverse with the right
+    AST, for all grammars and inputs.  (The Go SLR tables are compared with the model's, cell
+    by cell up to state renumbering, on every run.) *)
+Theorem C11_slr_construction_ok :
+  forall (G : gram) (fuel : nat) (ls : levels) (tbl : table),
+    (forall p c, In p (prods G) -> In (Tm c) (body p) -> In c (terms G)) ->
+    build_slr fuel G ls = BuiltOk tbl ->
+    exists lbl, table_ok G tbl lbl = true.
+Proof.
+  intros G fuel ls tbl Hvalid H.
+  destruct (canonical fuel G) as [C|] eqn:EC.
+  - exists (map lp C). exact (slr_table_ok G Hvalid fuel C EC ls tbl H).
+  - unfold build_slr, slr_raw in H. rewrite EC in H. discriminate.
+Qed.
+
+Corollary C11_slr_parser_sound :
+  forall (G : gram) (fuel : nat) (ls : levels) (tbl : table) (f : nat) (w : list nat) (evs : list event),
+    (forall p c, In p (prods G) -> In (Tm c) (body p) -> In c (terms G)) ->
+    build_slr fuel G ls = BuiltOk tbl ->
+    parse f tbl w = Accepted evs ->
+    L G w /\ rightmost_reverse G (prods_of evs) w /\
+    yield (ast_of evs) = map Some w /\ postorder (ast_of evs) = prods_of evs.
+Proof.
+  intros G fuel ls tbl f w evs Hvalid Hb Hp.
+  destruct (C11_slr_construction_ok G fuel ls tbl Hvalid Hb) as [lbl OK].
+  destruct (C11_driver_sound G tbl lbl f w evs OK Hp) as [H1 [H2 [_ [_ [H3 H4]]]]]. auto.
+Qed.
+
 (** Witness checker for long sentences: a production sequence accepted by [lm_check] is a
     leftmost derivation of the string. *)
 Theorem C11_witness_sound :
@@ -198,3 +231,5 @@ Print Assumptions C11_recognises_partial.
 Print Assumptions C11_lr0_closure.
 Print Assumptions C11_lr0_access_strings.
 Print Assumptions C11_witness_sound.
+Print Assumptions C11_slr_construction_ok.
+Print Assumptions C11_slr_parser_sound.
